@@ -95,6 +95,7 @@ fn status_code(s: TState) -> i64 {
 }
 
 /// how the schedule is produced
+#[derive(Clone, Copy)]
 enum Plan<'a> {
     /// exactly these entries, then round robin until everybody has finished
     Fixed(&'a [usize]),
@@ -105,7 +106,22 @@ enum Plan<'a> {
     Random(u64, u64),
 }
 
+/// Blocking is detected by a time-out, so a run on a heavily loaded machine can mistake a slow
+/// thread for a blocked one.  Such a run betrays itself (a "blocked" thread shows up at a site
+/// although nobody has called notify_all since): it is discarded and repeated.
 fn run_case(progs: &[Vec<Op>], plan: Plan) -> Obs {
+    let mut last = None;
+    for _ in 0..5 {
+        let (o, flaky) = run_once(progs, plan);
+        if !flaky { return o; }
+        if std::env::var("C37_DEBUG").is_ok() { eprintln!("c37: flaky run repeated: {}", replay_line(progs, &o.sched)); }
+        last = Some(o);
+        std::thread::sleep(Duration::from_millis(50));
+    }
+    last.unwrap()
+}
+
+fn run_once(progs: &[Vec<Op>], plan: Plan) -> (Obs, bool) {
     let n = progs.len();
     let q = Arc::new(GroupCommitQueue::with_default_config());
     let pool = PageBufferPool::new(16);
@@ -146,15 +162,18 @@ fn run_case(progs: &[Vec<Op>], plan: Plan) -> Obs {
     let mut cur: usize = 0;
     let mut idx = 0usize;
     let mut stuck = false;
+    let mut flaky = false;
+    let mut believed_blocked: Vec<usize> = vec![];
     let max_steps = 400;
     loop {
+        if believed_blocked.iter().any(|&b| s.state(b) != TState::Running) { flaky = true; }
         let av = runnable(&s);
         let fixed_left = match &plan { Plan::Fixed(l) => idx < l.len(), _ => false };
         if av.is_empty() && !fixed_left {
             if s.all_finished() { break; }
             // nobody parked: either a woken thread is still on its way to a site, or deadlock
             let t0 = Instant::now();
-            while runnable(&s).is_empty() && !s.all_finished() && t0.elapsed() < Duration::from_millis(400) {
+            while runnable(&s).is_empty() && !s.all_finished() && t0.elapsed() < Duration::from_secs(3) {
                 std::thread::sleep(Duration::from_micros(200));
             }
             if runnable(&s).is_empty() && !s.all_finished() { stuck = true; break; }
@@ -182,7 +201,7 @@ fn run_case(progs: &[Vec<Op>], plan: Plan) -> Obs {
             // the thread arrives a little later, it was merely slow
             let may_block = before == TState::AtSite(302);
             let t0 = Instant::now();
-            let grace = if may_block { Duration::from_millis(25) } else { Duration::from_secs(5) };
+            let grace = if may_block { Duration::from_millis(90) } else { Duration::from_secs(5) };
             while t0.elapsed() < grace {
                 match s.state(t) {
                     TState::AtSite(x) => { out = StepOutcome::Reached(x); break; }
@@ -194,7 +213,7 @@ fn run_case(progs: &[Vec<Op>], plan: Plan) -> Obs {
         let code = match out {
             StepOutcome::Reached(x) => x as i64,
             StepOutcome::Finished => 2,
-            StepOutcome::Blocked => { o.blocked_steps += 1; 1 }
+            StepOutcome::Blocked => { o.blocked_steps += 1; believed_blocked.push(t); 1 }
             StepOutcome::Skipped => 3,
         };
         // a step that performed notify_all (it ends at 306 / 406) releases every waiter: each of
@@ -204,6 +223,7 @@ fn run_case(progs: &[Vec<Op>], plan: Plan) -> Obs {
             while (0..n).any(|i| s.state(i) == TState::Running) && t0.elapsed() < Duration::from_secs(5) {
                 std::thread::sleep(Duration::from_micros(100));
             }
+            believed_blocked.clear();
         }
         o.sched.push(t);
         o.steps.push((code, statuses(&s), q.pending_count(), log.lock().unwrap().len()));
@@ -211,6 +231,7 @@ fn run_case(progs: &[Vec<Op>], plan: Plan) -> Obs {
         idx += 1;
     }
     o.drained = !stuck;
+    if stuck && std::env::var("C37_DEBUG").is_ok() { eprintln!("c37: stuck: {} flaky={}", replay_line(progs, &o.sched), flaky); }
     // snapshot before any 30 s timeout of a stuck waiter can change the picture
     o.log = log.lock().unwrap().clone();
     o.failed = failed.lock().unwrap().clone();
@@ -232,7 +253,7 @@ fn run_case(progs: &[Vec<Op>], plan: Plan) -> Obs {
             }
             let _ = tx.send(r.is_ok());
         });
-        o.probe = match rx.recv_timeout(Duration::from_millis(500)) { Ok(true) => 1, Ok(false) => 0, Err(_) => 0 };
+        o.probe = match rx.recv_timeout(Duration::from_secs(10)) { Ok(true) => 1, Ok(false) => 0, Err(_) => 0 };
     } else {
         // let the blocked waiters run into their 30 s timeout so that the threads can be joined
         let t0 = Instant::now();
@@ -243,7 +264,7 @@ fn run_case(progs: &[Vec<Op>], plan: Plan) -> Obs {
         for h in hs { let _ = h.join(); }
         Scheduler::uninstall();
     }
-    o
+    (o, flaky)
 }
 
 // ---------------------------------------------------------------- the property's oracle
@@ -482,22 +503,38 @@ fn gen(a: &Args) {
     let jobs: usize = std::env::var("C37_JOBS").ok().and_then(|x| x.parse().ok()).unwrap_or(12);
     let tmp = a.out.join("work");
     std::fs::create_dir_all(&tmp).expect("work dir");
-    let mut running: Vec<(usize, std::process::Child)> = vec![];
-    let mut next = 0usize;
+    let mut running: Vec<(usize, std::process::Child, Instant, u32)> = vec![];
+    let mut queue: std::collections::VecDeque<(usize, u32)> = (0..tasks.len()).map(|i| (i, 0u32)).collect();
     let mut failed_tasks = 0usize;
-    while next < tasks.len() || !running.is_empty() {
-        while next < tasks.len() && running.len() < jobs {
-            let out = tmp.join(format!("t{:04}.tsv", next));
+    let mut retried = 0usize;
+    let task_limit = Duration::from_secs(if a.thorough() { 900 } else { 240 });
+    while !queue.is_empty() || !running.is_empty() {
+        while !queue.is_empty() && running.len() < jobs {
+            let (ti, attempt) = queue.pop_front().unwrap();
+            let out = tmp.join(format!("t{:04}.tsv", ti));
             let child = std::process::Command::new(&exe).arg("worker").arg("--tier").arg(&a.tier).arg("--out").arg(&out)
-                .args(tasks[next].to_args()).spawn().expect("spawn worker");
-            running.push((next, child));
-            next += 1;
+                .args(tasks[ti].to_args()).spawn().expect("spawn worker");
+            running.push((ti, child, Instant::now(), attempt));
         }
         let mut i = 0;
         let mut progressed = false;
         while i < running.len() {
+            let over = running[i].2.elapsed() > task_limit;
             match running[i].1.try_wait() {
-                Ok(Some(st)) => { if !st.success() { failed_tasks += 1; } running.remove(i); progressed = true; }
+                Ok(Some(st)) => {
+                    let (ti, _, _, attempt) = running.remove(i);
+                    if !st.success() { if attempt == 0 { queue.push_back((ti, 1)); retried += 1; } else { failed_tasks += 1; } }
+                    progressed = true;
+                }
+                _ if over => {
+                    // a worker that hangs (it should take seconds) is killed and its task repeated once
+                    let (ti, mut ch, _, attempt) = running.remove(i);
+                    let _ = ch.kill();
+                    let _ = ch.wait();
+                    eprintln!("c37: worker for task {:?} exceeded its time limit", tasks[ti]);
+                    if attempt == 0 { queue.push_back((ti, 1)); retried += 1; } else { failed_tasks += 1; }
+                    progressed = true;
+                }
                 _ => i += 1,
             }
         }
@@ -517,7 +554,7 @@ fn gen(a: &Args) {
     }
     let _ = std::fs::remove_dir_all(&tmp);
     let wall = t_start.elapsed().as_secs_f64();
-    w.finish(&[("blocked_steps".into(), blocked_total.to_string()), ("harness_wall_s".into(), format!("{:.1}", wall)), ("worker_tasks".into(), tasks.len().to_string())]);
+    w.finish(&[("blocked_steps".into(), blocked_total.to_string()), ("harness_wall_s".into(), format!("{:.1}", wall)), ("worker_tasks".into(), tasks.len().to_string()), ("worker_tasks_repeated".into(), retried.to_string())]);
 }
 
 /// Oracle only: random programs and schedules on the implementation.
